@@ -16,7 +16,8 @@
 (***************************************************************************)
 EXTENDS WireFamilies
 
-Ex(go, sort, calls, unexp, iface, alloc) == [go |-> go, sort |-> sort, calls |-> calls, unexp |-> unexp, iface |-> iface, alloc |-> alloc]
+Ex(go, sort, calls, unexp, iface, alloc) == [go |-> go, sort |-> sort, calls |-> calls, unexp |-> unexp, iface |-> iface, alloc |-> alloc,
+                                             big |-> go \in {"[]int{1, 2, 3}", "@ExpSl", "@ExpSl[1:3]", "@ExpSl[1:3:5]", "@ExpArr[:]"}]   \* slices with len >= 2 and cap >= 2
 Pl(go, sort) == Ex(go, sort, FALSE, FALSE, FALSE, FALSE)
 
 Atoms ==
@@ -41,19 +42,19 @@ Atoms ==
     Pl("struct{ X int }{X: 1}", "struct{ X int }"), Pl("[]@ST{{A: 1}, {A: 2}}", "[]@ST"), Pl("[]*int{@ExpPtr}", "[]*int"),
     Pl("map[@ST]string{{A: 1}: \"one\"}", "map[@ST]string"), Pl("[]byte(\"abc\")", "[]byte"), Pl("[2][]int{{1}, {2, 3}}", "[2][]int") }
 
-W(e, go, sort) == [e EXCEPT !.go = go, !.sort = sort, !.iface = FALSE]
-Wa(e, go, sort) == [e EXCEPT !.go = go, !.sort = sort, !.iface = FALSE, !.alloc = TRUE]
-Wu(e, go, sort) == [e EXCEPT !.go = go, !.sort = sort, !.iface = FALSE, !.unexp = TRUE]
+W(e, go, sort) == [e EXCEPT !.go = go, !.sort = sort, !.iface = FALSE, !.big = FALSE]
+Wa(e, go, sort) == [e EXCEPT !.go = go, !.sort = sort, !.iface = FALSE, !.alloc = TRUE, !.big = FALSE]
+Wu(e, go, sort) == [e EXCEPT !.go = go, !.sort = sort, !.iface = FALSE, !.unexp = TRUE, !.big = FALSE]
 \* one more layer of syntax around an expression e
 Derived(e) ==
   CASE e.sort = "int" ->
          { W(e, "-(" \o e.go \o ")", "int"), W(e, "(" \o e.go \o ") + 1", "int"), W(e, "((" \o e.go \o "))", "int"),
            W(e, "@MyInt(" \o e.go \o ")", "@MyInt"), W(e, "float64(" \o e.go \o ")", "float64"), W(e, "(" \o e.go \o ") > 3", "bool"),
            W(e, "[]int{" \o e.go \o "}", "[]int"), W(e, "map[string]int{\"k\": " \o e.go \o "}", "map[string]int"),
-           W(e, "@ST{A: " \o e.go \o "}", "@ST"), Wa(e, "&@ST{A: " \o e.go \o "}", "*@ST"), W(e, "@ExpSl[(" \o e.go \o ")%2:]", "[]int") }
+           W(e, "@ST{A: " \o e.go \o "}", "@ST"), Wa(e, "&@ST{A: " \o e.go \o "}", "*@ST"), W(e, "@ExpSl[((" \o e.go \o ")%2+2)%2:]", "[]int") }
     [] e.sort = "[]int" ->
-         { W(e, "(" \o e.go \o ")[0]", "int"), W(e, "(" \o e.go \o ")[1:2]", "[]int"), W(e, "(" \o e.go \o ")[0:1:2]", "[]int"),
-           W(e, "[][]int{" \o e.go \o "}", "[][]int") }
+         { W(e, "(" \o e.go \o ")[0]", "int"), W(e, "[][]int{" \o e.go \o "}", "[][]int") }
+         \cup (IF e.big THEN { W(e, "(" \o e.go \o ")[1:2]", "[]int"), W(e, "(" \o e.go \o ")[0:1:2]", "[]int") } ELSE {})
     [] e.sort = "@ST" ->
          { W(e, "(" \o e.go \o ").A", "int"), Wu(e, "(" \o e.go \o ").b", "int"), W(e, "[]@ST{" \o e.go \o "}", "[]@ST") }
     [] e.sort = "*int" -> { W(e, "*(" \o e.go \o ")", "int"), W(e, "[]*int{" \o e.go \o "}", "[]*int") }
